@@ -11,7 +11,9 @@
 (*     SYNACK; otherwise (absent, < 2, not a number, out of range) it      *)
 (*     sends neither (protocol version 1: the client does not wait).       *)
 (*   - a keep-alive request is answered with a keep-alive response that    *)
-(*     carries the same stream id, whatever was negotiated.                *)
+(*     carries the same stream id, whatever was negotiated;                *)
+(*   - the target's bytes and, after its close, the end-of-stream frame    *)
+(*     are sent to clients of every protocol version.                      *)
 (* vclass: "absent" / "one" / "two" / "high" (3..255) / "overflow" (>=256) *)
 (*         / "garbage";   md5: "same" / "other" / "absent"                 *)
 (***************************************************************************)
@@ -28,10 +30,13 @@ Accept(c, o) ==
     /\ o.synack = WantSynAck(c.vclass)
     /\ o.heartecho
     /\ (o.update /\ o.serversettings => o.update_first)     \* the push precedes the settings answer
+    \* whatever was negotiated: what the target sent arrives, and after the target's close the end-of-stream frame (C08)
+    /\ ("fin" \in DOMAIN o => o.tdata /\ o.fin)
 Why(c, o) ==
     IF o.update # WantUpdate(c.md5) THEN "the server pushed its padding scheme although the digests are equal (or did not push although they differ)"
     ELSE IF o.serversettings # WantServerSettings(c.vclass) THEN "ServerSettings must be answered exactly to clients of protocol version >= 2"
     ELSE IF o.synack # WantSynAck(c.vclass) THEN "a stream open of a version >= 2 client was not answered (or a version 1 client was answered)"
+    ELSE IF "fin" \in DOMAIN o /\ ~(o.tdata /\ o.fin) THEN "C08: the target's data or its end-of-stream did not reach a client of this protocol version"
     ELSE IF ~o.heartecho THEN "a keep-alive request was not answered with a response carrying the same stream id"
     ELSE "the scheme push did not precede the ServerSettings answer"
 
